@@ -330,6 +330,50 @@ pub fn peek(a: &dyn Aml) {
     a.to_aml_bytes(&mut NullSink);
 }
 
+/// A sink that implements only the mandatory method and keeps the bytes.
+pub struct ByteOnly(pub Vec<u8>);
+impl acpi_tables::AmlSink for ByteOnly {
+    fn byte(&mut self, b: u8) {
+        self.0.push(b);
+    }
+}
+
+/// The bytes of `o` -- which must not depend on the sink they are written to (C14). Serialised into
+/// the vector sink, a byte-only sink (the trait's default word/dword/qword/vec) and, when small,
+/// the crate's own two sinks (generic table, package builder). If a sink delivers other bytes,
+/// those are returned, so that whatever oracle judges the bytes sees the disagreement too.
+pub fn ser_sinks(o: &dyn Aml) -> Vec<u8> {
+    ser_sinks_upto(o, 2 << 20)
+}
+
+pub fn ser_sinks_upto(o: &dyn Aml, byte_only_limit: usize) -> Vec<u8> {
+    let mut a = Vec::new();
+    o.to_aml_bytes(&mut a);
+    if a.len() <= byte_only_limit {
+        let mut b = ByteOnly(Vec::with_capacity(a.len()));
+        o.to_aml_bytes(&mut b);
+        if b.0 != a {
+            return b.0;
+        }
+    }
+    if a.len() <= 600 {
+        let mut t = acpi_tables::sdt::Sdt::new(*b"SINK", 36, 1, *b"OEMIDX", *b"TABLEID0", 1);
+        o.to_aml_bytes(&mut t);
+        if t.as_slice()[36..] != a[..] {
+            return t.as_slice()[36..].to_vec();
+        }
+        let mut pb = aml::PackageBuilder::new();
+        o.to_aml_bytes(&mut pb);
+        let mut w = Vec::new();
+        pb.to_aml_bytes(&mut w);
+        // 12 PkgLength NumElements(0) data: the data is the last a.len() bytes
+        if w.len() < a.len() || w[w.len() - a.len()..] != a[..] {
+            return w;
+        }
+    }
+    a
+}
+
 /// Serialises the object three times (discarded, kept, kept): every oracle that judges emitted
 /// bytes thereby judges an object that has been serialised before. If the two kept outputs
 /// differ (C14's subject) the later one is returned, so a structural oracle sees it too.
@@ -339,7 +383,7 @@ pub fn emit(t: &Term) -> Vec<u8> {
     with_aml(t, &mut |o| {
         peek(o);
         o.to_aml_bytes(&mut out);
-        o.to_aml_bytes(&mut again);
+        again = ser_sinks(o);
     });
     if again != out {
         return again;
